@@ -677,6 +677,23 @@ func (fx *FX) evalCall(env *Env, t *ECall) Val {
 		x := arg(0)
 		mem := fx.comp(env.st, "M:bv8", SArr(SInt, SBytes))
 		return Val{T: app("mk_str", SStr, Select(mem, sReg(x.T)), sOff(x.T), sLen(x.T)), Typ: tString}
+	case "hasType", "deref":
+		x := arg(0)
+		lit, ok := t.Args[1].(*ELit)
+		if !ok || lit.Kind != "str" {
+			env.fail("%s: second argument must be a type name string", t.Fn)
+		}
+		typ := fx.e.lookupType(lit.S)
+		if typ == nil {
+			env.fail("unknown type %q", lit.S)
+		}
+		if t.Fn == "hasType" {
+			return Val{T: w.IfaceIs(x.T, typ)}
+		}
+		if x.T.Sort == SIface {
+			return Val{T: w.IfaceGet(x.T, typ), Typ: typ}
+		}
+		return Val{T: x.T, Typ: typ}
 	case "iref":
 		// reference carried by an interface value holding a pointer
 		x := arg(0)
@@ -742,4 +759,33 @@ func (fx *FX) ifaceRef(x Term) Term {
 		}
 	}
 	return r
+}
+
+// lookupType resolves "db.tableLeaf", "*db.tableLeaf", "[]byte", "int64", ... to a Go type.
+func (e *Engine) lookupType(name string) types.Type {
+	if strings.HasPrefix(name, "*") {
+		if t := e.lookupType(name[1:]); t != nil {
+			return types.NewPointer(t)
+		}
+		return nil
+	}
+	if strings.HasPrefix(name, "[]") {
+		if t := e.lookupType(name[2:]); t != nil {
+			return types.NewSlice(t)
+		}
+		return nil
+	}
+	if obj := types.Universe.Lookup(name); obj != nil {
+		if tn, ok := obj.(*types.TypeName); ok {
+			return tn.Type()
+		}
+	}
+	for _, p := range e.Pkgs {
+		for _, m := range p.Members {
+			if t, ok := m.(*ssa.Type); ok && e.W.typeString(t.Type()) == name {
+				return t.Type()
+			}
+		}
+	}
+	return nil
 }
